@@ -39,6 +39,64 @@ biased_value(vh_rng *rg, const struct rt_reg *r)
     }
 }
 
+/* A second, small table lives next to the one under test, at the same addresses, and is used in between: nothing
+ * the library remembers about one table (a cached area, a cached handle) may be applied to the other. */
+static struct rt_inst inst2;
+static int inst2_alive;
+static unsigned inst2_n;
+
+static void
+bystander_setup(void)
+{
+    struct rt_desc d2;
+    memset(&d2, 0, sizeof d2);
+    d2.nareas = 1;
+    d2.bigendian = !inst.d.bigendian;
+    d2.area[0].base = inst.d.area[0].base;
+    d2.area[0].size = 4;
+    d2.area[0].readable = d2.area[0].writeable = 1;
+    d2.area[0].has_write = 1;
+    d2.nregs = 2;
+    d2.reg[0].type = REG_TYPE_UINT16;
+    d2.reg[0].addr = d2.area[0].base;
+    d2.reg[0].ck = REGV_TYPE_RANGE;
+    d2.reg[0].lo.u16 = 10;
+    d2.reg[0].hi.u16 = 20;
+    d2.reg[0].def.u16 = 15;
+    d2.reg[1].type = REG_TYPE_UINT32;
+    d2.reg[1].addr = d2.area[0].base + 1;
+    d2.reg[1].def.u32 = 0x01020304;
+    rt_build_mode = 0;
+    rt_build(&inst2, &d2);
+    rt_build_mode = -1;
+    rt_cur = &inst;
+    inst2_alive = register_init(&inst2.t).code == REG_INIT_SUCCESS;
+    inst2_n = 0;
+}
+
+static void
+bystander_step(const char *ctx)
+{
+    if (!inst2_alive)
+        return;
+    const unsigned k = inst2_n++;
+    const uint16_t want = (uint16_t)(10 + k % 11), bad = (uint16_t)(21 + k % 100);
+    RegisterValue v = { .type = REG_TYPE_UINT16, .value.u16 = want }, g;
+    RegisterAccess a = register_set(&inst2.t, 0, v);
+    RegisterAccess b = register_get(&inst2.t, 0, &g);
+    v.value.u16 = bad;
+    RegisterAccess c = register_set(&inst2.t, 0, v);
+    RegisterAtom w[3] = { 0, 0, 0 };
+    RegisterAccess r = register_block_read(&inst2.t, inst2.d.area[0].base, 3, w);
+    unsigned char enc[2];
+    rt_encode(REG_TYPE_UINT16, inst2.d.bigendian, want, enc);
+    if (a.code != REG_ACCESS_SUCCESS || b.code != REG_ACCESS_SUCCESS || g.value.u16 != want || c.code != REG_ACCESS_RANGE
+        || r.code != REG_ACCESS_SUCCESS || memcmp(w, enc, 2) != 0 || memcmp(inst2.store[0], enc, 2) != 0)
+        vh_fail("second-table", "step=bystander", "%s: on a second table at the same addresses: set(%u) code=%d, get code=%d value=%u, "
+                "set(%u) code=%d, block read code=%d first word %04x", ctx, want, a.code, b.code, g.value.u16, bad, c.code, r.code, w[0]);
+    VH_COUNT("second table used between the steps");
+}
+
 /* after every step */
 static void
 observe(const char *step, const char *ctx)
@@ -390,6 +448,9 @@ history_body(uint64_t idx, vh_rng *rgp)
         return;
     char ctx0[200];
     snprintf(ctx0, sizeof ctx0, "table{%.150s}", rt_describe(&inst.d));
+    inst2_alive = 0;
+    if (idx & 2)
+        bystander_setup();
     observe("initial", ctx0);
     unsigned len = 50 + (unsigned)vh_below(&rg, 351);
     for (unsigned s = 0; s < len; s++) {
@@ -412,6 +473,8 @@ history_body(uint64_t idx, vh_rng *rgp)
             step_sanitise_unjudged(&rg, c);
         else
             step_sanitise(c, 0);
+        if ((s % 7) == 3)
+            bystander_step(c);
         if (*vh_nfail != f0) {
             /* report with the table once, then carry on from the implementation's state */
             vh_fail("history-context", "step=context", "%s after %u steps", ctx0, s);
@@ -517,6 +580,7 @@ harness_run(void)
                                  "step: bit operation refused by the constraint", "step: block write accepted",
                                  "step: block write refused", "step: sanitise",
                                  "step: sanitise outside its promise, stopped with an error",
+                                 "second table used between the steps",
                                  "sanitise: register with undecodable content reset",
                                  "sanitise: register violating its constraint reset",
                                  "sanitise: register keeps its value" };
